@@ -448,6 +448,7 @@ fn run_long_arbitrary(ctx: &Ctx) -> Report {
 
 pub fn run(ctx: &Ctx) -> Report {
     let mut rep = run_main(ctx);
+    rep.merge(run_dataitem(ctx));
     rep.merge(run_calm(ctx));
     if ctx.only.is_none() && rep.counters.get("calm.twin_streams").copied().unwrap_or(0) == 0 {
         rep.inconclusive.push("coverage floor missed: calm.twin_streams = 0".into());
@@ -510,6 +511,63 @@ fn run_calm(ctx: &Ctx) -> Report {
     })
 }
 
+/// The crate's own bar type: a valid OHLCV bar stays valid in any power-of-two unit (order and sign are
+/// preserved exactly), so `DataItem::builder()` must accept it, and the indicators fed the re-expressed
+/// items must produce the scaled outputs.
+fn run_dataitem(ctx: &Ctx) -> Report {
+    let njobs = ctx.pick(600, 12000);
+    let seed = ctx.seed;
+    let jobs: Vec<usize> = (0..njobs).collect();
+    par_run(jobs, ctx.threads, move |idx, rep| {
+        let mut rng = Rng::derive(seed, 0xC14D, *idx as u64);
+        let base = *rng.pick(&[1e-2, 1.0, 50.0, 1e3]);
+        let k = rng.range(0, 80) as i32 - 40;
+        let pow2 = (2.0f64).powi(k);
+        let bars = BarGen::new(BAR_STYLES[idx % BAR_STYLES.len()], base, rng.u64()).take(rng.range(20, 300));
+        for kind in ALL_KINDS {
+            if kind == Kind::Rsi {
+                continue;
+            }
+            let p = variant(kind, &mut rng);
+            let (mut a, mut b) = (Inst::new(&p), Inst::new(&p));
+            let mut m = 0.0f64;
+            for (i, bar) in bars.iter().enumerate() {
+                let sb = bar.scale_prices(pow2);
+                m = m.max(bar.h.abs());
+                let (ra, rb) = (a.next_item(bar), b.next_item(&sb));
+                rep.evaluations += 1;
+                match (ra, rb) {
+                    (Ok(oa), Ok(ob)) => {
+                        let (qa, qb) = (derive(kind, &oa), derive(kind, &ob));
+                        for (j, (name, va, _, class)) in qa.iter().enumerate() {
+                            let vb = qb[j].1;
+                            let (err, tol) = match class {
+                                Class::Level | Class::Disp | Class::DispSq => ((vb - dd(pow2) * *va).abs().to_f64(), 1e-12 * pow2 * m),
+                                Class::Dimless => ((vb - *va).abs().to_f64(), 1e-12 * 100.0),
+                            };
+                            if !(err <= tol) && !(vb.hi.is_nan() && va.hi.is_nan()) {
+                                let xs: Vec<In> = bars[..=i].iter().map(|x| In::B(*x)).collect();
+                                let ys: Vec<In> = bars[..=i].iter().map(|x| In::B(x.scale_prices(pow2))).collect();
+                                report(rep, &p, "dataitem_scale_pow2", name, i + 1, format!("{} {} fed DataItems: out(c*x)={:e} vs c*out(x)={:e} (c=2^{})", p.label(), name, vb.to_f64(), va.to_f64() * pow2, k), &xs, &ys, j.min(oa.n - 1), pow2, 0.0, tol);
+                                break;
+                            }
+                        }
+                    }
+                    (Ok(_), Err(e)) => {
+                        let xs: Vec<In> = bars[..=i].iter().map(|x| In::B(*x)).collect();
+                        let ys: Vec<In> = bars[..=i].iter().map(|x| In::B(x.scale_prices(pow2))).collect();
+                        report(rep, &p, "dataitem_scale_pow2", "accepted", i + 1, format!("{}: the bar {:?} is a valid DataItem, the same bar in units of 2^{} is not ({})", p.label(), bar.fields(), k, e.0), &xs, &ys, 0, pow2, 0.0, 0.0);
+                        break;
+                    }
+                    _ => break,
+                }
+            }
+            rep.count("dataitem.twin_streams");
+            rep.distinct_by_construction += 1;
+        }
+    })
+}
+
 fn run_main(ctx: &Ctx) -> Report {
     let njobs = ctx.pick(3200, 64000);
     let seed = ctx.seed;
@@ -526,6 +584,24 @@ fn run_main(ctx: &Ctx) -> Report {
         let (inputs, minp): (Vec<In>, f64) = if bars_mode {
             let bs = BarGen::new(BAR_STYLES[(idx / 2) % BAR_STYLES.len()], base, rng.u64()).take(len);
             let mut bs = bs;
+            if idx % 8 == 5 {
+                // the instrument re-rates once or twice: all later prices 20x higher or lower (a gap many times
+                // the previous close, which a shift of the whole stream must not turn into something else)
+                let mut f = 1.0;
+                let at = [bs.len() / 3, (2 * bs.len()) / 3];
+                for (i, b) in bs.iter_mut().enumerate() {
+                    if i == at[0] {
+                        f *= 20.0;
+                    }
+                    if i == at[1] {
+                        f *= if rng.chance(0.5) { 0.05 } else { 16.0 };
+                    }
+                    if f != 1.0 {
+                        *b = b.scale_prices(f);
+                    }
+                }
+                rep.count("bar_streams_with_rerating_jumps");
+            }
             if idx % 8 == 3 {
                 // runs of identical bars (a halted instrument): windows that are exactly flat in every unit
                 for i in 1..bs.len() {
